@@ -10,7 +10,8 @@ MANIFEST = dict(
          "context-returning callbacks; per-item provenance is part of the C04 specifications (contexts are in the specs) and of the *_ctx_exact theorems. That the machines forward what the Go code forwards is the "
          "regenerated CtxFlow fact (provenance of every context expression handed downstream/upstream), decided by the kernel on every run. Tie: every catalogue operator and random chains with a marker at "
          "subscription, per item, and added by WithContext callbacks: the marker list of every delivered notification equals the model's; oracle: no delivered context is nil / lacks the subscription marker "
-         "except the listed known findings (Max on empty: nil; DefaultIfEmpty: Background); ToChannel's context.TODO() was repaired.",
+         "except the listed known findings (Max on empty: nil; DefaultIfEmpty: Background); ToChannel's context.TODO() was repaired."
+         ' Time-driven and hand-off operators (kind=ctxpair): under bursts with racing timers every notification is delivered with its own context through Delay, DelayEach, Timeout, ThrottleTime, SampleTime, ObserveOn, SubscribeOn and Serialize.',
     technique="Lean 4 proof (per-machine context invariant + generic run theorem) + kernel-decided CtxFlow table regenerated from source + differential correspondence of context markers",
     ref='5/C09')
 
